@@ -85,11 +85,15 @@ SRP_PASS = "password"
 def verifier_db():
     global _vdb
     if _vdb is None:
+        # deterministic and independent of when it is first needed
+        saved = (boot.drbg.key, boot.drbg.ctr)
+        boot.drbg.reseed("verifier-db")
         db = VerifierDB()
         db.create()
         db[SRP_USER.encode()] = VerifierDB.makeVerifier(SRP_USER, SRP_PASS, 1536)
         db[b"user2"] = VerifierDB.makeVerifier("user2", "other-pass", 1536)
         _vdb = db
+        boot.drbg.key, boot.drbg.ctr = saved
     return _vdb
 
 
